@@ -204,7 +204,7 @@ Definition bs_step (A P : vec -> vec) (left : bool) (eps : S) (st : bs_st) : opt
   end.
 
 (* for(first = true; (res > eps || (first && check_after)) && iter < maxiter; ++iter)
-   (bicgstab.hpp after fix 5724e11: res always starts as ||r0||; check_after forces the first pass) *)
+   (bicgstab.hpp after fix 60a0b5c: res always starts as ||r0||; check_after forces the first pass) *)
 Fixpoint bs_loop (A P : vec -> vec) (left ca : bool) (eps : S) (fuel : nat) (st : bs_st) : option bs_st :=
   match fuel with
   | O => Some st
